@@ -94,11 +94,11 @@ pub fn parse_human(text: &str) -> Vec<Value> {
             Some((sev.to_string(), code.to_owned(), msg.to_owned()))
         });
         if let Some((sev, code, msg)) = header {
-            recs.push(json!({"severity": sev, "code": code, "message": msg, "at": null, "notes": []}));
+            recs.push(json!({"severity": sev, "code": code, "message": msg, "at": [], "notes": []}));
             mode = 1;
         } else if let Some(msg) = line.strip_prefix("note: ") {
             if let Some(r) = recs.last_mut() {
-                r["notes"].as_array_mut().unwrap().push(json!({"message": msg, "at": null}));
+                r["notes"].as_array_mut().unwrap().push(json!({"message": msg, "at": []}));
                 mode = 2;
             }
         } else if let Some(loc) = line.strip_prefix(" --> ") {
@@ -133,7 +133,7 @@ pub fn parse_human(text: &str) -> Vec<Value> {
                 }
             }
         } else {
-            recs.push(json!({"severity": "?", "code": "?", "message": line, "at": null, "notes": []}));
+            recs.push(json!({"severity": "?", "code": "?", "message": line, "at": [], "notes": []}));
         }
     }
     recs
@@ -152,7 +152,7 @@ pub fn parse_json(text: &str) -> Result<Vec<Value>, String> {
         }
         let at = |s: &Value| -> Value {
             if s.is_null() {
-                Value::Null
+                json!([])
             } else {
                 json!([s["file"], s["start"]["row"], s["start"]["col"]])
             }
@@ -168,7 +168,7 @@ fn expected_record(r: &Value) -> Value {
     let d = build(&json!({"kind": if r["severity"] == "error" { "error" } else { "lint" }, "code": r["code"], "msg": r["msg"], "span": r["span"], "notes": r["notes"]}));
     let at = |s: Option<&Span>| match s {
         Some(s) => json!([s.file, s.start.row, s.start.col]),
-        None => Value::Null,
+        None => json!([]),
     };
     let notes: Vec<Value> = d.notes().iter().map(|n| json!({"message": n.message, "at": at(n.span.as_ref())})).collect();
     json!({"severity": r["severity"], "code": r["code"], "message": d.message(), "at": at(d.span()), "notes": notes})
@@ -262,7 +262,7 @@ pub fn bin_program(id: u64) -> (String, String) {
 fn lib_at(s: Option<&Span>) -> Value {
     match s {
         Some(s) => json!([s.file, s.start.row, s.start.col]),
-        None => Value::Null,
+        None => json!([]),
     }
 }
 
@@ -286,6 +286,10 @@ impl Family for EmitBin {
         }
         for a in &allow {
             argv.extend(["-A".into(), a.clone()]);
+        }
+        let gen = case["gen"].as_str().unwrap_or("none");
+        if gen == "missing" {
+            argv.extend(["-G".into(), "./no-such-generator".into()]);
         }
         let rendered = json!({"argv": argv, "file": text});
         let key = hash_str(&rendered.to_string());
@@ -348,7 +352,7 @@ impl Family for EmitBin {
         }
         let exit = res.status.and_then(|s| s.code()).map(|c| c as i64).unwrap_or(-1);
         emit_event("emitbin", &json!({
-            "ev": "emit", "prog": prog, "format": format, "disable_color": disable, "allow": allow,
+            "ev": "emit", "prog": prog, "format": format, "disable_color": disable, "allow": allow, "gen": gen,
             "lib": lib, "records": records, "json_ok": json_ok, "escapes": esc_err + esc_out,
             "sum_w": sum_w, "sum_e": sum_e, "stdout_other": other, "exit": exit, "timed_out": res.timed_out,
         }));
